@@ -1170,6 +1170,11 @@ type c02Case struct {
 	gen   *c02Gen
 	label string
 	forms bool // a directed case about the write forms (not a witness of the known finding): reported at once
+	// scenario stream (c02scn.go): a step made from Go that ends by an error is recorded as -1 and the
+	// host goes on using the VM (the model sees `try(func() { return <step> }, -1)`)
+	hostTry bool
+	scn     map[string]int
+	scnSeq  string
 }
 
 func c02Generate(r *RNG, shallow bool) *c02Case {
@@ -1284,8 +1289,14 @@ func (c *c02Case) modelProg() *c02_ct {
 	for _, n := range c.obs {
 		obs = append(obs, c02_cV(n))
 	}
-	stmts := append(append(append([]*c02_ct{}, c.main...), c.host...), c02_cL(obs...))
-	return c02_cProg(stmts...)
+	stmts := append([]*c02_ct{}, c.main...)
+	for _, h := range c.host {
+		if c.hostTry {
+			h = c02_cD(h.S, c02_cR("try", c02_cFn("_", nil, c02_cRet(h.C[0])), c02_cI(-1)))
+		}
+		stmts = append(stmts, h)
+	}
+	return c02_cProg(append(stmts, c02_cL(obs...))...)
 }
 
 // the source the VM runs: without host steps; when there are none it ends with the observation list
@@ -1501,7 +1512,17 @@ func c02RunReal(c *c02Case, timeout time.Duration) (r c02Real) {
 	}
 	for _, h := range c.host {
 		call := h.C[0]
-		fo, err := get(call.C[0].S)
+		var fo object.Object
+		var err error
+		if callee := call.C[0]; callee.K == "x" {
+			// `r[i](args)`: the function is taken out of a list the VM returned earlier
+			fo, err = get(callee.C[0].S)
+			if l, isList := fo.(*object.List); err == nil && isList && int(callee.I) < len(l.Value()) {
+				fo = l.Value()[callee.I]
+			}
+		} else {
+			fo, err = get(callee.S)
+		}
 		if err != nil {
 			r.Outcome, r.ErrText = "err host", err.Error()
 			return
@@ -1527,6 +1548,11 @@ func c02RunReal(c *c02Case, timeout time.Duration) (r c02Real) {
 		}
 		v, err := machine.Call(ctx, fn, args)
 		if err != nil {
+			if c.hostTry && ctx.Err() == nil {
+				// the host notes the failure and keeps using the VM
+				hostVals[h.S] = object.NewInt(-1)
+				continue
+			}
 			r.Outcome, r.ErrText = c02Outcome(nil, err)
 			return
 		}
@@ -1581,6 +1607,16 @@ func c02Judge(e *Env, c *c02Case, r c02Real, reply string) (v c02Verdict) {
 	for _, t := range c.main {
 		goWrap(t)
 	}
+	if c.hostTry {
+		// the thunks that stand for the host's error handling exist in the model only: they are the last literals, without locals
+		fs := strings.Split(modelLocals, ",")
+		if len(fs) >= len(c.host) {
+			modelLocals = strings.Join(fs[:len(fs)-len(c.host)], ",")
+			if modelLocals == "" {
+				modelLocals = "-"
+			}
+		}
+	}
 	locals := c02ParseLocals(modelLocals)
 	v.impl, v.specOut = impl, spec
 	if r.CompileErr != "" {
@@ -1617,6 +1653,9 @@ func c02Key(c *c02Case) string {
 	}
 	if len(c.host) > 0 {
 		s += "\n// then vm.Get of: " + strings.Join(c.obs, ", ")
+	}
+	if c.hostTry {
+		s += "\n// (a step from Go that returns an error is recorded as -1; the host goes on)"
 	}
 	return s
 }
@@ -1719,7 +1758,7 @@ func c02Shrink(c *c02Case, bad0 func(*c02Case) bool) *c02Case {
 		changed := false
 		// candidates: every statement list (main, host, function bodies)
 		var lists []*[]*c02_ct
-		m := &c02Case{gen: cur.gen, obs: cur.obs}
+		m := &c02Case{gen: cur.gen, obs: cur.obs, hostTry: cur.hostTry}
 		for _, t := range cur.main {
 			m.main = append(m.main, c02Clone(t))
 		}
@@ -2189,6 +2228,13 @@ func c02_runC02(e *Env) {
 		"after which the function declares further variables (a closure that leaves a loop of more than one iteration does not refer to variables declared in that loop: " +
 		"recorded finding C01-loop-body-variable-shared). A second stream: functions that are trees of blocks and declarations only, the real STORE_FAST operands and " +
 		"LocalsCount against the model's slot allocator (non-trivial: a declaration follows a closed block). " +
+		"A third stream (c02scn.go): 1-3 maker functions mk(a, z) that own 1-3 int variables (at most / more than 8 local slots), create closures over them " +
+		"(by themselves, or in a callee two or three function levels further in, directly / through list.map — always while the lexical ancestors are the topmost frames), " +
+		"keep writing and reading the variables and calling the closures afterwards, let a closure escape to a global, and fail at 1-2 generated points when z selects them " +
+		"(error(), a failing nested call, a nested call that made closures, a failing list.each / list.map / filter callback, another maker that fails); the top level is 4-10 attempts " +
+		"(try at the top level with 0-2 wrapper frames, a function containing the try, plain calls, vm.Call from Go where a failed call is recorded as -1 and the VM is used further) " +
+		"mixing failing and succeeding attempts at equal and different call depths, and uses of the closures the successful attempts returned. " +
+		"A fourth stream: operation sequences of the frame machine (oracle request frames) against the variable machine and a Go reference (non-trivial: a cell exists and an activation was aborted or its owner stored after the capture). " +
 		"A case is one program (+ host steps); distinct by its text; non-trivial when the real bytecode creates a cell and reads or " +
 		"writes a free variable"
 	n := 6000
@@ -2206,6 +2252,18 @@ func c02_runC02(e *Env) {
 	}
 	c02SlotCases(e, nSlots)
 	rng := e.Rng.Fork()
+	// third stream (c02scn.go): error exits after captures, owners that go on after a callee captured
+	nScn, scnBudget := 1500, 40*time.Second
+	if !e.Quick {
+		nScn, scnBudget = 15000, 4*time.Minute
+	}
+	scnRng, frRng := e.Rng.Fork(), e.Rng.Fork()
+	nFr := 400
+	if !e.Quick {
+		nFr = 5000
+	}
+	c02FrameCases(e, frRng, nFr)
+	c02ScenarioCases(e, scnRng, nScn, scnBudget)
 	shrunk := 0
 	bad := 0
 	start := time.Now()
@@ -2264,6 +2322,7 @@ type c02Job struct {
 	Main    []*c02_ct `json:"main"`
 	Host    []*c02_ct `json:"host"`
 	Obs     []string  `json:"obs"`
+	HostTry bool      `json:"host_try"`
 	Timeout int       `json:"timeout_ms"`
 }
 
@@ -2291,7 +2350,7 @@ func c02WorkerMain(args []string) {
 			out.Flush()
 			continue
 		}
-		c := &c02Case{main: j.Main, host: j.Host, obs: j.Obs}
+		c := &c02Case{main: j.Main, host: j.Host, obs: j.Obs, hostTry: j.HostTry}
 		r := c02RunReal(c, time.Duration(j.Timeout)*time.Millisecond)
 		b, _ := json.Marshal(r)
 		out.Write(b)
@@ -2363,7 +2422,7 @@ func c02ExecOnce(c *c02Case, timeout time.Duration) (r c02Real) {
 			return c02Real{Outcome: "err worker", ErrText: "cannot start the worker process"}
 		}
 	}
-	b, _ := json.Marshal(c02Job{Main: c.main, Host: c.host, Obs: c.obs, Timeout: int(timeout / time.Millisecond)})
+	b, _ := json.Marshal(c02Job{Main: c.main, Host: c.host, Obs: c.obs, HostTry: c.hostTry, Timeout: int(timeout / time.Millisecond)})
 	c02W.in.Write(b)
 	c02W.in.WriteByte('\n')
 	c02W.in.Flush()
